@@ -5,6 +5,7 @@ package main
 
 import (
 	"fmt"
+	"strconv"
 	"math/rand"
 	"time"
 
@@ -22,6 +23,15 @@ func run(c *Ctx) error {
 		// each agent's half of a run is a core history and replays on its own; the summary line is
 		// a function of the two and is not re-run separately
 		for _, toks := range c.ReplayLines() {
+			if len(toks) > 2 && toks[0] == "PS" && toks[len(toks)-2] == "seed" {
+				// a pair summary replays the whole two-agent run it came from (its generator seed is recorded)
+				if sd, err := strconv.ParseInt(toks[len(toks)-1], 10, 64); err == nil {
+					if _, err := oneRun(c, sd); err != nil {
+						return err
+					}
+				}
+				continue
+			}
 			if len(toks) == 0 || toks[0] != "CFG" {
 				continue
 			}
@@ -214,6 +224,7 @@ func oneRun(c *Ctx, seed int64) (bool, error) {
 	} else {
 		sum = append(sum, "0")
 	}
+	sum = append(sum, "seed", fmt.Sprint(seed))
 	obs := append([]string{}, p.SelToks(0)...)
 	obs = append(obs, p.SelToks(1)...)
 	obs = append(obs, B(p.EverConnected[0]), B(p.EverSelected[0]), B(p.EverConnected[1]), B(p.EverSelected[1]), fmt.Sprint(p.InFlight()))
